@@ -1,8 +1,8 @@
 #!/verif/.venv/bin/python
 # Replay of a solver counterexample against the unmodified code (no shims).
-# property=C06 kernel=program label=extended:view_after_view
+# property=C06 kernel=program label=nested:atom_phase_with_other_global_channels
 import sys
 sys.path[:0] = ['/repo' + "/pulser-core", '/repo' + "/pulser-simulation", "/verif"]
 from symx.replay import replay
-sys.exit(replay(check='checks.c06', kernel='program', shape={'program': 'eom_nodelay', 'ext': [0, 3]},
-                assignment={}, label='extended:view_after_view'))
+sys.exit(replay(check='checks.c06', kernel='program', shape={'program': 'xy_slm_two', 'ext': [0, 1, 5]},
+                assignment={'a0': '1/2', 'd0': '0/1', 'a1': '1/2', 'd1': '0/1', 'a2': '1/2', 'd2': '0/1'}, label='nested:atom_phase_with_other_global_channels'))
